@@ -60,6 +60,42 @@ def _captured(fn: ast.AST, name: str) -> bool:
     return False
 
 
+_PURE_CALLS = {'isinstance', 'issubclass', 'len', 'str', 'repr', 'type', 'hasattr', 'getattr', 'int', 'bool', 'float', 'cast',
+               'list', 'tuple', 'set', 'dict', 'sorted', 'id', 'any', 'all', 'min', 'max'}
+
+
+def _filter_independent(comp, body) -> bool:
+    """May `for y in [x for x in XS if C]: BODY` be read as `for x in XS: if C: BODY`?  Always for a generator (it is consumed
+    lazily, element by element); for a list - built before the first iteration - only when BODY cannot change what C and XS read:
+    no name they read (other than the element itself) is rebound in BODY, passed to a call in BODY or the receiver of one."""
+    if isinstance(comp, ast.GeneratorExp):
+        return True
+    g0 = comp.generators[0]
+    elem = {x.id for x in ast.walk(g0.target) if isinstance(x, ast.Name)}
+    reads = {x.id for e in [g0.iter] + list(g0.ifs) for x in ast.walk(e) if isinstance(x, ast.Name)} - elem
+    if not g0.ifs:
+        # nothing is filtered: only the iterable itself matters, and a list copy of it is what a loop over it would see unless
+        # BODY changes the collection
+        pass
+    touched = set()
+    for b in body:
+        for x in ast.walk(b):
+            if isinstance(x, ast.Name) and not isinstance(x.ctx, ast.Load):
+                touched.add(x.id)
+            elif isinstance(x, (ast.Attribute, ast.Subscript)) and not isinstance(x.ctx, ast.Load):
+                touched |= {y.id for y in ast.walk(x.value) if isinstance(y, ast.Name)}
+            elif isinstance(x, ast.Call):
+                if (isinstance(x.func, ast.Name) and x.func.id in _PURE_CALLS) or (
+                        isinstance(x.func, ast.Attribute) and (x.func.attr == 'format' or (
+                            isinstance(x.func.value, ast.Name) and x.func.value.id in ('logger', 'logging')))):
+                    continue
+                for a in list(x.args) + [k.value for k in x.keywords]:
+                    touched |= {y.id for y in ast.walk(a) if isinstance(y, ast.Name)}
+                if isinstance(x.func, ast.Attribute):
+                    touched |= {y.id for y in ast.walk(x.func.value) if isinstance(y, ast.Name)}
+    return not (reads & touched)
+
+
 class _Norm(ast.NodeTransformer):
     def __init__(self):
         self.fn_stack: List[ast.AST] = []
@@ -252,7 +288,7 @@ class _Norm(ast.NodeTransformer):
             inside = {id(x) for x in ast.walk(it)}
             fn = self.fn_stack[-1]
             clash = xv != yv and any(isinstance(x, ast.Name) and x.id == xv and id(x) not in inside for x in ast.walk(fn))
-            if not clash:
+            if not clash and _filter_independent(it, n.body):
                 body = n.body
                 if xv != yv:
                     for b in body:
@@ -516,7 +552,7 @@ class _Norm(ast.NodeTransformer):
                 xv, yv = g0.target.id, nx.target.id
                 inside = {id(n) for n in ast.walk(s.value)}
                 clash = xv != yv and any(isinstance(n, ast.Name) and n.id == xv and id(n) not in inside for n in ast.walk(fn))
-                if len(uses) == 2 and not clash and not g0.is_async:
+                if len(uses) == 2 and not clash and not g0.is_async and _filter_independent(s.value, nx.body):
                     body = nx.body
                     if xv != yv:
                         for b in body:
@@ -1111,23 +1147,71 @@ def _subst(e: ast.AST, binds) -> ast.AST:
     return T().visit(e)
 
 
-def _fold(e: ast.AST) -> ast.AST:
-    """'a' + 'b' -> 'ab' (string constants only)"""
+def _key_dump(e: ast.AST) -> str:
+    return ast.dump(e).replace('ctx=Store()', 'ctx=Load()')
+
+
+def _fold(e: ast.AST, tables=None) -> ast.AST:
+    """constant folding of string expressions: 'a' + 'b', 'sep'.join(('a', 'b')), '{}x'.format('a'), f-strings without
+    holes; `TABLE[key]` for a module-level dict display TABLE (own or imported, never modified) whose key is spelt like `key`"""
+    tables = tables or {}
+
+    def s_(n):
+        return n.value if isinstance(n, ast.Constant) and isinstance(n.value, str) else None
+
     class T(ast.NodeTransformer):
         def visit_BinOp(self, n):
             self.generic_visit(n)
-            if isinstance(n.op, ast.Add) and isinstance(n.left, ast.Constant) and isinstance(n.right, ast.Constant) \
-                    and isinstance(n.left.value, str) and isinstance(n.right.value, str):
+            if isinstance(n.op, ast.Add) and s_(n.left) is not None and s_(n.right) is not None:
                 return ast.copy_location(ast.Constant(n.left.value + n.right.value), n)
+            return n
+
+        def visit_JoinedStr(self, n):
+            self.generic_visit(n)
+            parts = []
+            for v in n.values:
+                if isinstance(v, ast.FormattedValue) and v.conversion == -1 and v.format_spec is None and s_(v.value) is not None:
+                    parts.append(v.value.value)
+                elif s_(v) is not None:
+                    parts.append(v.value)
+                else:
+                    return n
+            return ast.copy_location(ast.Constant(''.join(parts)), n)
+
+        def visit_Call(self, n):
+            self.generic_visit(n)
+            f = n.func
+            if isinstance(f, ast.Attribute) and s_(f.value) is not None and not n.keywords:
+                if f.attr == 'join' and len(n.args) == 1 and isinstance(n.args[0], (ast.Tuple, ast.List)) \
+                        and all(s_(x) is not None for x in n.args[0].elts):
+                    return ast.copy_location(ast.Constant(f.value.value.join(x.value for x in n.args[0].elts)), n)
+                if f.attr == 'format' and n.args and all(s_(x) is not None for x in n.args):
+                    try:
+                        return ast.copy_location(ast.Constant(f.value.value.format(*[x.value for x in n.args])), n)
+                    except Exception:
+                        return n
+            return n
+
+        def visit_Subscript(self, n):
+            self.generic_visit(n)
+            if isinstance(n.ctx, ast.Load) and isinstance(n.value, ast.Name) and n.value.id in tables:
+                d = tables[n.value.id]
+                want = _key_dump(n.slice)
+                hits = [v for k, v in zip(d.keys, d.values) if k is not None and _key_dump(k) == want]
+                if len(hits) == 1 and _literal(hits[0], names_ok=False):
+                    import copy
+                    return ast.copy_location(copy.deepcopy(hits[0]), n)
             return n
     return T().visit(e)
 
 
-def propagate_module_constants(tree: ast.Module) -> ast.Module:
-    """N8: a module-level name that is bound exactly once, to a literal (string, number, tuple/set of literals), and whose spelling
-    marks it as a constant (_private or ALL_CAPS) is replaced by the literal wherever it is read and not shadowed"""
+def module_constant_binds(tree: ast.Module, ext=None):
+    """(binds, tables): module-level names bound exactly once to a literal (N8), resolved through constants defined from other
+    constants - including those imported from other yatiml modules (`ext`: local name -> value) - and the dict displays that may
+    be looked up at analysis time"""
     import copy
     import re as _re
+    ext = ext or {}
     binds = {}
     counts = {}
     for st in tree.body:
@@ -1150,6 +1234,18 @@ def propagate_module_constants(tree: ast.Module) -> ast.Module:
             for nm in n.names:
                 binds.pop(nm, None)
     binds = {k: v for k, v in binds.items() if counts.get(k) == 1}
+    tables = {}
+    for st in tree.body:
+        if isinstance(st, ast.Assign) and len(st.targets) == 1 and isinstance(st.targets[0], ast.Name) and isinstance(st.value, ast.Dict) \
+                and counts.get(st.targets[0].id) == 1 and st.value.keys and not _table_modified(tree, st.targets[0].id):
+            tables[st.targets[0].id] = st.value
+    for nm, v in ext.items():
+        if counts.get(nm):
+            continue
+        if isinstance(v, ast.Dict):
+            tables[nm] = v
+        else:
+            binds[nm] = v
     # constants defined from other constants (_STR_TAG = _PREFIX + 'str'): resolve to a fixpoint, folding string concatenation
     cand = {}
     for st in tree.body:
@@ -1160,15 +1256,53 @@ def propagate_module_constants(tree: ast.Module) -> ast.Module:
     for _ in range(4):
         progress = False
         for nm, st in list(cand.items()):
-            v = _fold(_subst(copy.deepcopy(st.value), binds))
+            v = _fold(_subst(copy.deepcopy(st.value), binds), tables)
             if _literal(v):
                 binds[nm] = v
                 del cand[nm]
                 progress = True
         if not progress:
             break
-    binds = {k: _fold(v) for k, v in binds.items()}
-    if not binds:
+    binds = {k: _fold(v, tables) for k, v in binds.items()}
+    # a table whose values are defined from constants: fold them too
+    for nm, d in list(tables.items()):
+        if nm not in ext:
+            d2 = copy.deepcopy(d)
+            d2.values = [_fold(_subst(v, binds), tables) for v in d2.values]
+            tables[nm] = d2
+    return binds, tables
+
+
+def _table_modified(tree: ast.AST, name: str) -> bool:
+    for n in ast.walk(tree):
+        if isinstance(n, ast.Subscript) and isinstance(n.ctx, (ast.Store, ast.Del)) and isinstance(n.value, (ast.Name, ast.Attribute)) \
+                and (n.value.id if isinstance(n.value, ast.Name) else n.value.attr) == name:
+            return True
+        if isinstance(n, ast.Call) and isinstance(n.func, ast.Attribute) and n.func.attr in (
+                'update', 'pop', 'popitem', 'clear', 'setdefault', '__setitem__', '__delitem__') \
+                and isinstance(n.func.value, (ast.Name, ast.Attribute)) \
+                and (n.func.value.id if isinstance(n.func.value, ast.Name) else n.func.value.attr) == name:
+            return True
+    return False
+
+
+def module_exports(tree: ast.Module, ext=None):
+    """what other modules may fold when they import a name from this one: its literal constants and its unmodified dict displays"""
+    binds, tables = module_constant_binds(tree, ext)
+    out = dict(binds)
+    for nm, d in tables.items():
+        if nm not in (ext or {}):
+            out[nm] = d
+    return out
+
+
+def propagate_module_constants(tree: ast.Module, ext=None) -> ast.Module:
+    """N8: a module-level name that is bound exactly once, to a literal (string, number, tuple/set of literals), and whose spelling
+    marks it as a constant (_private or ALL_CAPS) is replaced by the literal wherever it is read and not shadowed; a lookup
+    `TABLE[key]` in an unmodified module-level dict display with that very key is replaced by the value"""
+    import copy
+    binds, tables = module_constant_binds(tree, ext)
+    if not binds and not tables:
         return tree
 
     class _Sub(ast.NodeTransformer):
@@ -1199,6 +1333,17 @@ def propagate_module_constants(tree: ast.Module) -> ast.Module:
                     return n            # a name inside the constant's value means something else here
                 return ast.copy_location(copy.deepcopy(binds[n.id]), n)
             return n
+
+        def visit_Subscript(self, n):
+            self.generic_visit(n)
+            if isinstance(n.ctx, ast.Load) and isinstance(n.value, ast.Name) and n.value.id in tables \
+                    and n.value.id not in self.shadow[-1]:
+                return _fold(n, tables)
+            return n
+
+        def visit_BinOp(self, n):
+            self.generic_visit(n)
+            return _fold(n) if isinstance(n.op, ast.Add) else n
 
     new_body = []
     sub = _Sub()
@@ -1245,8 +1390,8 @@ def unroll_display_loops(tree: ast.Module) -> ast.Module:
     return tree
 
 
-def normalize(tree: ast.Module) -> ast.Module:
-    tree = propagate_module_constants(tree)
+def normalize(tree: ast.Module, ext=None) -> ast.Module:
+    tree = propagate_module_constants(tree, ext)
     tree = unroll_display_loops(tree)
     tree = _Norm().visit(tree)
     # a second pass: folding temporaries (N5) and boolean returns (N14) exposes new instances of the expression-level rewrites
